@@ -217,6 +217,79 @@ Theorem C15_create_current_custom_cosmology_refuted :
 Proof. exact create_current_custom_cosmology_refuted. Qed.
 Print Assumptions C15_create_current_custom_cosmology_refuted.
 
+(* ---- interpreter modes: the validations are raise statements, so the refusals the property demands and
+   the clause "strictly increasing" hold with python -O / PYTHONOPTIMIZE as well (dbg = the value of
+   __debug__); the model of the default interpreter is the model of the optimised one ---- *)
+Theorem C15_create_mode_independent : forall Dc Dci Lg Ex dbg p,
+  create_g Dc Dci Lg Ex all_raise dbg p = create Dc Dci Lg Ex true p.
+Proof. exact create_g_all_raise. Qed.
+Print Assumptions C15_create_mode_independent.
+
+Theorem C15_validation_mode_independent : forall dbg,
+  (forall e m cl, mk_binning_g all_raise dbg e m cl = mk_binning e m cl) /\
+  (forall rmin rmax u rw res, create_scales_g all_raise dbg rmin rmax u rw res = create_scales rmin rmax u rw res).
+Proof. intros dbg. split; intros; [apply mk_binning_g_all_raise | apply create_scales_g_all_raise]. Qed.
+Print Assumptions C15_validation_mode_independent.
+
+Theorem C15_invalid_rejected_any_mode : forall Dc Dci Lg Ex dbg p,
+  params_invalid p = true -> create_g Dc Dci Lg Ex all_raise dbg p = Rejected.
+Proof. exact invalid_rejected_any_mode. Qed.
+Print Assumptions C15_invalid_rejected_any_mode.
+
+Theorem C15_edges_strict_any_mode : forall Dc Dci Lg Ex dbg p c,
+  create_g Dc Dci Lg Ex all_raise dbg p = Ok c -> valid_edges (b_edges (c_binning c)) = true.
+Proof. exact created_edges_strict_any_mode. Qed.
+Print Assumptions C15_edges_strict_any_mode.
+
+(* a validation by assert / behind `if __debug__` cannot be told from a raise in the default interpreter ... *)
+Theorem C15_assert_invisible_in_default_mode : forall Dc Dci Lg Ex g p,
+  create_g Dc Dci Lg Ex g true p = create Dc Dci Lg Ex true p.
+Proof. exact create_g_debug. Qed.
+Print Assumptions C15_assert_invisible_in_default_mode.
+
+(* ... and is lost with -O: non-increasing custom edges, zmin >= zmax, a single edge, rmin >= rmax are accepted *)
+Theorem C15_assert_edges_inc_refuted :
+  exists p c, params_invalid p = true /\
+    create_g no_oracle no_oracle (fun x => x) (fun x => x) (mkGuards GRaise GAssert GRaise) false p = Ok c /\
+    valid_edges (b_edges (c_binning c)) = false.
+Proof. exact assert_edges_inc_refuted. Qed.
+Print Assumptions C15_assert_edges_inc_refuted.
+
+Theorem C15_assert_limits_refuted :
+  exists p c, params_invalid p = true /\ p_zmin p = Some (3 # 4) /\ p_zmax p = Some (1 # 4) /\
+    create_g no_oracle no_oracle (fun x => x) (fun x => x) (mkGuards GRaise GAssert GRaise) false p = Ok c /\
+    valid_edges (b_edges (c_binning c)) = false.
+Proof. exact assert_limits_refuted. Qed.
+Print Assumptions C15_assert_limits_refuted.
+
+Theorem C15_assert_edges_len_refuted :
+  exists p c, params_invalid p = true /\
+    create_g no_oracle no_oracle (fun x => x) (fun x => x) (mkGuards GAssert GRaise GRaise) false p = Ok c /\
+    length (b_edges (c_binning c)) = 1%nat.
+Proof. exact assert_edges_len_refuted. Qed.
+Print Assumptions C15_assert_edges_len_refuted.
+
+Theorem C15_assert_scales_refuted :
+  exists p c, params_invalid p = true /\
+    create_g no_oracle no_oracle (fun x => x) (fun x => x) (mkGuards GRaise GRaise GAssert) false p = Ok c /\
+    scales_valid (s_rmin (c_scales c)) (s_rmax (c_scales c)) = false.
+Proof. exact assert_scales_refuted. Qed.
+Print Assumptions C15_assert_scales_refuted.
+
+(* ---- python types of the values: the grid computed exactly is the grid of the parameters; computed in the
+   precision of a narrower type of the limits (F26, repaired in 18c893e) it is another one although it still
+   spans [zmin, zmax] ---- *)
+Theorem C15_linear_edges_prec_exact : forall a b n, linear_edges_prec (fun x => x) a b n = linear_edges a b n.
+Proof. exact linear_edges_prec_exact. Qed.
+Print Assumptions C15_linear_edges_prec_exact.
+
+Theorem C15_linear_edges_prec_refuted :
+  exists rnd a b n, rnd a == a /\ rnd b == b /\ (1 <= n)%nat /\
+    hd 0 (linear_edges_prec rnd a b n) = a /\ last (linear_edges_prec rnd a b n) 0 = b /\
+    qlist_eqb (linear_edges_prec rnd a b n) (linear_edges a b n) = false.
+Proof. exact linear_edges_prec_refuted. Qed.
+Print Assumptions C15_linear_edges_prec_refuted.
+
 (* non-vacuity: 4 linear bins on [1/4, 5/4], closed left, two scales in arcmin; then modify to
    2 bins and another unit: the result is create of the merged arguments, the angle of
    30 arcmin is 1/2 * pi180 *)
